@@ -208,4 +208,36 @@ theorem iterStep_succ_apply (f : Str → Str) (n : Nat) (u : Str) :
   | succ n ih => exact ih (f u)
 
 
+/-! ## the function reads its argument through the cleaned url only -/
+
+/-- two strings with the same cleaned form are resolved alike: both follow the same target, or
+each is returned as it is (for ANY target function) -/
+theorem inferOf_clean_congr (target : Str → Option Str) (a b : Str) (h : cleanedUrl a = cleanedUrl b) :
+    inferOf target a = inferOf target b ∨ (inferOf target a = a ∧ inferOf target b = b) := by
+  rw [inferOf, inferOf.eq_def target b, h]
+  cases target (cleanedUrl b) with
+  | none => exact Or.inr ⟨rfl, rfl⟩
+  | some t =>
+    by_cases ht : t.length < (cleanedUrl b).length
+    · left
+      show (if t.length < (cleanedUrl b).length then inferOf target t else a) =
+        (if t.length < (cleanedUrl b).length then inferOf target t else b)
+      rw [if_pos ht, if_pos ht]
+    · right
+      show (if t.length < (cleanedUrl b).length then inferOf target t else a) = a ∧
+        (if t.length < (cleanedUrl b).length then inferOf target t else b) = b
+      rw [if_neg ht, if_neg ht]; exact ⟨rfl, rfl⟩
+
+/-- `infer_redirection(a)` and `infer_redirection(b)` for `a`, `b` with the same cleaned form -/
+theorem infer_clean_congr (a b : Str) (h : cleanedUrl a = cleanedUrl b) :
+    infer a = infer b ∨ (infer a = a ∧ infer b = b) :=
+  inferOf_clean_congr inferTarget a b h
+
+/-- nothing found in the cleaned url: the argument comes back as it is -/
+theorem infer_eq_self_of_clean (u : Str) (h1 : domainSplit (cleanedUrl u) = none)
+    (h2 : redirectSearch (cleanedUrl u) = none) : infer u = u := by
+  unfold infer
+  rw [inferOf]
+  simp [inferTarget, h1, h2]
+
 end Ural
